@@ -13,8 +13,9 @@ import (
 
 func (r *FnRun) call(st *State, b *ssa.BasicBlock, idx int, x *ssa.Call) (Val, bool) {
 	cc := x.Common()
+	r.checkEffect(st, x, cc)
 	if cc.IsInvoke() {
-		panic(unsupported("interface method call " + cc.Method.Name()))
+		return r.invoke(st, x), false
 	}
 	var args []Val
 	for _, a := range cc.Args {
@@ -29,6 +30,27 @@ func (r *FnRun) call(st *State, b *ssa.BasicBlock, idx int, x *ssa.Call) (Val, b
 	}
 	name := fullName(callee)
 	site := fmt.Sprintf("call.%s#%d", shortCallee(callee), r.siteIdx[x])
+	if len(r.C.AtCall) > 0 && callee.Pkg != nil {
+		qn := callee.Pkg.Pkg.Name() + "." + shortCallee(callee)
+		for i, ac := range r.C.AtCall {
+			if ac.Callee != qn {
+				continue
+			}
+			env := r.calleeEnv(st, r.Entry, callee, args)
+			for k, v := range r.params {
+				if _, have := env.vars[k]; !have {
+					env.vars[k] = v
+					env.vtypes[k] = r.ptypes[k]
+				}
+			}
+			for k, v := range r.lets {
+				if _, have := env.vars[k]; !have {
+					env.vars[k] = v
+				}
+			}
+			r.addGoal(st, fmt.Sprintf("at_call.%s#%d/%s", qn, r.siteIdx[x], clauseLabel(ac.C, i)), r.posOf(x), env.evalBool(ac.C.E), ac.C.Props)
+		}
+	}
 	if in, ok := r.E.Intrinsics[name]; ok {
 		if v, handled := in(r, st, x, args); handled {
 			return v, false
@@ -49,6 +71,25 @@ func (r *FnRun) call(st *State, b *ssa.BasicBlock, idx int, x *ssa.Call) (Val, b
 		}
 	}
 	if c, ok := r.E.Contracts[name]; ok {
+		var extra map[string]Val
+		if cv, isC := r.operand(st, cc.Value).(*ClosureVal); isC {
+			extra = map[string]Val{}
+			for i, fv := range callee.FreeVars {
+				b := cv.Bindings[i]
+				if pt, isPtr := fv.Type().Underlying().(*types.Pointer); isPtr {
+					// captured by reference: the contract sees the variable's current value
+					switch bp := b.(type) {
+					case *LocalPtr:
+						b = r.cellGet(st, bp)
+					case Term:
+						b = r.loadAt(st, bp, pt.Elem())
+					}
+				}
+				extra[fv.Name()] = b
+			}
+		}
+		r.pendingFree = extra
+		defer func() { r.pendingFree = nil }()
 		return r.applyContract(st, x, callee, c, args, site)
 	}
 	// unknown callee: sound over-approximation — everything may change, result arbitrary
@@ -120,6 +161,9 @@ func (r *FnRun) calleeEnv(st, old *State, callee *ssa.Function, args []Val) *Env
 	env := &Env{r: r, st: st, old: old, vars: map[string]Val{}, vtypes: map[string]types.Type{}, nm: st}
 	if callee.Pkg != nil {
 		env.pkg = callee.Pkg.Pkg
+	}
+	for k, v := range r.pendingFree {
+		env.vars[k] = v
 	}
 	sig := callee.Signature
 	i := 0
@@ -219,8 +263,8 @@ type modRange struct {
 }
 
 type modSpec struct {
-	ranges []modRange          // raw memory (width arrays)
-	fields map[string][]Term   // field array -> object addresses whose entry may change
+	ranges []modRange        // raw memory (width arrays)
+	fields map[string][]Term // field array -> object addresses whose entry may change
 	all    bool
 	whole  map[string]bool // arrays that may change everywhere
 }
@@ -607,4 +651,80 @@ func (r *FnRun) dynamicCall(st *State, x *ssa.Call, args []Val) Val {
 	}
 	root.ghostDecls[name] = fmt.Sprintf("(declare-fun %s (%s) %s)\n", name, strings.Join(sorts, " "), rs.SMT())
 	return Term{app(name, ts...), rs}
+}
+
+// invoke: interface method call. A trusted contract keyed by the method's full
+// name (e.g. "(io/fs.FileInfo).IsDir") is used when present; otherwise the
+// call may do anything (heap havocked, result arbitrary).
+func (r *FnRun) invoke(st *State, x *ssa.Call) Val {
+	cc := x.Common()
+	name := cc.Method.FullName()
+	res := cc.Signature().Results()
+	var result Val
+	switch res.Len() {
+	case 0:
+	case 1:
+		result = r.freshVal(st, "r_"+cc.Method.Name(), res.At(0).Type())
+	default:
+		result = r.freshVal(st, "r_"+cc.Method.Name(), res)
+	}
+	if c, ok := r.E.Contracts[name]; ok {
+		r.E.Trusted["contract: "+c.Key+" ("+shortPath(c.File)+")"] = true
+		pure := len(c.Modifies) > 0
+		for _, m := range c.Modifies {
+			if m != "nothing" {
+				pure = false
+			}
+		}
+		if !pure {
+			r.havocAll(st)
+		}
+		return result
+	}
+	r.E.Notes["havoc: interface method call "+name+" without contract"] = true
+	r.havocAll(st)
+	return result
+}
+
+// checkEffect: effect allow-list (clause `effects <pkg>: A, B, T.M`): a call
+// into a listed package must be to one of the allowed functions/methods.
+func (r *FnRun) checkEffect(st *State, ins ssa.Instruction, cc *ssa.CallCommon) {
+	if len(r.C.Effects) == 0 {
+		return
+	}
+	var pkg, name string
+	if cc.IsInvoke() {
+		if cc.Method.Pkg() == nil {
+			return
+		}
+		pkg = cc.Method.Pkg().Path()
+		name = cc.Method.Name()
+		if recv := cc.Signature().Recv(); recv != nil {
+			if nt, ok := recv.Type().(*types.Named); ok {
+				name = nt.Obj().Name() + "." + name
+			}
+		}
+	} else {
+		callee := cc.StaticCallee()
+		if callee == nil || callee.Pkg == nil {
+			return
+		}
+		pkg = callee.Pkg.Pkg.Path()
+		name = shortCallee(callee)
+	}
+	allowed, listed := r.C.Effects[pkg]
+	if !listed {
+		return
+	}
+	ok := false
+	for _, a := range allowed {
+		if a == name {
+			ok = true
+		}
+	}
+	if !ok {
+		r.addGoal(st, "effects.allowed["+pkg+"."+name+"]", r.posOf(ins), False, nil)
+	} else {
+		r.addGoal(st, "effects.allowed["+pkg+"."+name+"]", r.posOf(ins), True, nil)
+	}
 }
